@@ -218,6 +218,34 @@ Proof.
   apply IH; auto. eapply Forall_lt_mono with (f := fun x => x); [|exact H3]. exact Hle.
 Qed.
 
+Lemma Sep_push_em_empty h dt : Sep h -> Sep (push_em h (mkE dt [])).
+Proof.
+  intros S. eapply Sep_same; [| | |exact S]; try reflexivity.
+  unfold roots; hs. rewrite map_app, concat_app. simpl. rewrite app_nil_r. reflexivity.
+Qed.
+
+Lemma Sep_construct h dt ls f :
+  wf h -> locs_ok h ls -> Sep h -> Sep (fst (construct h dt ls true f)).
+Proof.
+  intros W H S. destruct (construct h dt ls true f) as [h1 [|x]] eqn:E; simpl.
+  - rewrite (construct_ok _ _ _ _ _ _ E).
+    apply Sep_extend_locs; [apply wf_push_em_empty; auto|exact H|apply Sep_push_em_empty; auto].
+  - rewrite (construct_err _ _ _ _ _ _ _ E). exact S.
+Qed.
+
+Lemma Sep_clone_ems h es :
+  wf h -> Forall (fun e => locs_ok h (e_mem e)) es -> Sep h -> Sep (fst (clone_ems h es)).
+Proof.
+  revert h; induction es as [|e es IH]; intros h W H S; simpl; auto.
+  inversion H as [|? ? He Hes]; subst.
+  pose proof (wf_construct h (e_dtype e) (e_mem e) true false W He) as W1.
+  pose proof (Sep_construct h (e_dtype e) (e_mem e) false W He S) as S1.
+  destruct (construct h (e_dtype e) (e_mem e) true false) as [h1 [|x]] eqn:E; simpl in *; auto.
+  destruct (construct_tables _ _ _ _ _ _ W He E) as (_ & _ & _ & _ & _ & _ & _ & _ & T9).
+  apply IH; auto. eapply Forall_impl; [|exact Hes]. intros a Ha.
+  eapply Forall_lt_mono with (f := fun x => x); [|exact Ha]. exact T9.
+Qed.
+
 Lemma Sep_copy_ems h es h1 :
   wf h -> Forall (fun e => locs_ok h (e_mem e)) es -> Sep h -> copy_ems h es = Some h1 -> Sep h1.
 Proof.
@@ -389,6 +417,27 @@ Proof.
   - (* tlistappend *) unfold exec_tlistappend. dm; simpl; auto; apply (Sep_same h); try reflexivity; exact S.
   - (* tlistset *) unfold exec_tlistset. destruct (nth_error (tvars h) j) as [tl|]; simpl; auto.
     destruct (times_of h tl) as [ts0|]; simpl; auto. destruct (i <? length ts0); simpl; auto.
+  - (* emctor *) subst cp. unfold exec_emctor.
+    destruct (mapM (nth_error (hnd h)) is) as [ls|] eqn:E; simpl; auto.
+    pose proof (locs_ok_mapM_hnd _ _ _ W E) as Hls.
+    destruct dt as [i|]; [|apply Sep_construct; auto].
+    destruct (nth_error (hnd h) i) as [l|]; simpl; auto.
+    destruct (val_of h l) as [v|]; simpl; auto. apply Sep_construct; auto.
+  - (* emclone *) unfold exec_emclone. destruct (nth_error (ems h) c) as [e|] eqn:Ee; simpl; auto.
+    apply Sep_construct; auto. eapply wf_em; eauto.
+  - (* sel *) unfold exec_sel, new_em_from. dm; simpl; auto; apply Sep_new_em_vals; auto.
+  - (* tcsel *) unfold exec_tcsel. destruct (nth_error (tcs h) t) as [tc|] eqn:Et; simpl; auto.
+    destruct (times_of h (tc_tl tc)); simpl; auto.
+    destruct (mapM (nth_error (ems h)) (sel idxs (tc_ems tc))) as [es|] eqn:E; simpl; auto.
+    apply Sep_build_tc; auto. eapply wf_mapM_ems; eauto.
+  - (* trsel *) unfold exec_trsel. dm; simpl; auto; apply Sep_build_tr; auto.
+  - (* tcclone *) unfold exec_tcclone. destruct (nth_error (tcs h) t) as [tc|] eqn:Et; simpl; auto.
+    destruct (times_of h (tc_tl tc)) as [ts|]; simpl; auto.
+    destruct (mapM (nth_error (ems h)) (tc_ems tc)) as [es|] eqn:E; simpl; auto.
+    pose proof (Sep_clone_ems h es W (wf_mapM_ems _ _ _ W E) S) as S1.
+    destruct (clone_ems_inv h es W (wf_mapM_ems _ _ _ W E)) as (_ & _ & _ & T2 & _).
+    destruct (clone_ems h es) as [h1 [|x]]; simpl in *; auto.
+    apply Sep_push_tc; auto.
 Qed.
 
 Theorem Sep_run os : forall h, wf h -> Sep h -> Forall (fun o => sep_op o = true) os -> Sep (run h os).
